@@ -25,8 +25,10 @@ func c08(c *Ctx) {
 	c08R2(c, "R2")
 	c08R3(c, "R3")
 	c08R4(c, "R4")
+	c02R4(c, "R4/C02.R4")
 	c08R5(c, "R5")
 	c02R7(c, "R6/C02.R7")
+	c02R3(c, "R6/C02.R3")
 	if fn := c.Fn("R7", "(*logFuture).Index"); fn != nil {
 		for _, ret := range engine.ReturnsOf(fn) {
 			d := c.P.D(engine.ReturnValues(ret)[0])
@@ -236,6 +238,7 @@ func c08R3(c *Ctx, rule string) {
 	if fn == nil {
 		return
 	}
+	sDurableDispatch(c, rule+"/S-DURABLE")
 	rangeBodyAlways(c, rule, fn, "dispatchLogs:every-future-indexed-and-parked", "p1", func(in ssa.Instruction) bool {
 		cc := engine.CallCommonOf(in)
 		return cc != nil && c.P.CalleeName(cc) == "(*container/list.List).PushBack" && c.P.Arg(in, 0) == "val(range p1)" && c.P.D(engine.RecvValue(in)) == "recv.leaderState.inflight"
